@@ -248,7 +248,7 @@ public:
   }
 
   // ---- distribution: real objects + BppODiscreteDistributionFormat::writeDiscreteDistribution
-  // allow: bit0 TruncExponential, bit1 Uniform, bit2 invariant class value other than the reader's built-in 1e-6
+  // allow: bit0 TruncExponential, bit1 Uniform, bit2 invariant class value 0.25 instead of the reader's built-in 1e-6
   // (each is the exact trigger of a confirmed defect; the generators set these bits only in their rare "risky" runs)
   static std::unique_ptr<bpp::DiscreteDistributionInterface> makeDist(Rng& r, long family, size_t n, int prec, bool freeValues, int depth, long allow) {
     using namespace bpp;
@@ -279,7 +279,7 @@ public:
       case 8: {
         if (depth > 0) return makeDist(r, r.below(6), n, prec, freeValues, depth, allow);
         auto inner = makeDist(r, r.below(5), n, prec, freeValues, depth + 1, allow);
-        std::unique_ptr<DiscreteDistributionInterface> d(new InvariantMixedDiscreteDistribution(std::move(inner), roundTo(r.real(0.05, 0.6), 6), (allow & 4) ? 0. : 0.000001));
+        std::unique_ptr<DiscreteDistributionInterface> d(new InvariantMixedDiscreteDistribution(std::move(inner), roundTo(r.real(0.05, 0.6), 6), (allow & 4) ? 0.25 : 0.000001));
         return d;
       }
       default: {
